@@ -20,15 +20,28 @@ class C15(Prop):
             "non-hot changes, renames of regexp configurations within a family matching the same names with other groups, "
             "static configurations appearing under live dynamic paths, static ones giving way to regexp ones, removals - "
             "and publishers arriving/leaving; configurations come from the real conf.Load; after each step it waits for the "
-            "asynchronous path.reloadConf and records every live path. Plus the reflect field list and pathConfCanBeUpdated "
-            "on one pair per field of conf.Path. n = number of histories. Non-trivial = a history in which a reload kept, "
-            "moved, recreated or removed a live path")
+            "asynchronous path.reloadConf and records every live path. Every run also forces RACES (class raced-reloads: 8 "
+            "directed + n/8 random histories): path goroutines are held busy (they sit in doDescribe, sending an answer "
+            "nobody takes yet), two or three mostly hot-compatible reloads are issued back to back - half of the time on a "
+            "single P, where the scheduler starts the hand-over goroutine created last first -, everything is released and "
+            "the observation is taken once every hand-over has landed; and class raced-leave (6 histories): a static "
+            "configuration appears under a held dynamic path whose publisher leaves before the path has received it. "
+            "Plus the reflect field list and pathConfCanBeUpdated on one pair per field of conf.Path. n = number of "
+            "histories. Non-trivial = a history in which a reload kept, moved, recreated or removed a live path")
     trusted_base = ["Coq 8.16.1 kernel + VM", "translator tools/gen/hotfields (validated: reflect field list and one real "
                     "pathConfCanBeUpdated call per field are compared with the generated table on every run)",
-                    "in-package driver zz_verif_c15_test.go", "oracle: regexp FindStringSubmatch per (regexp key, name)",
+                    "in-package driver zz_verif_c15_test.go (races: holds path goroutines through the real two-phase describe, "
+                    "runtime.GOMAXPROCS(1) during half of them, waits until no goroutine is inside core.(*path).reload*)", "oracle: regexp FindStringSubmatch per (regexp key, name)",
                     "C14's model of FindPathConf (its answers are compared with the real function on every live name)"]
-    assumptions = ["each reload's asynchronous path.reloadConf deliveries land before the next reload is issued "
-                   "(two `go pa.reloadConf` of consecutive reloads are not ordered by the code)",
+    assumptions = ["hand-overs of one path are received in the order in which pathManager issued them (what "
+                   "path.reloadConfAsync does since /repo f21f96e; the unordered discipline of the code as found is the "
+                   "ordered=false instance of the model, proved to violate the property and replayed by the raced-reloads "
+                   "class); when a hand-over is received relative to later reloads, creations and departures is arbitrary",
+                   "a publisher leaving while the path still waits for a hand-over closes the path iff BOTH the configuration "
+                   "the path runs with and the manager's record are regexp configurations (model of shouldClose + the "
+                   "manager's check of /repo 34080dc); when the path runs a static configuration and the manager's record is "
+                   "a regexp one the real outcome depends on which of the two the path goroutine takes first - both "
+                   "outcomes satisfy the property, the driver does not generate that schedule",
                    "configurations are compared as the vector of their field values (reflect.DeepEqual field by field)",
                    "publisher/reader bookkeeping inside the path is C16-C20's subject; only creation on demand and "
                    "self-closing of idle regexp-served paths are modelled"]
@@ -40,13 +53,25 @@ class C15(Prop):
              "survives a reload (and then receives the new capture groups) iff it still resolves with a configuration differing "
              "only on hot-reloadable fields, where hot-reloadable is the list generated from pathConfCanBeUpdated on every run "
              "(and confined to Name/Regexp/Forward/Record*/RPICamera*). The pre-fix model is proved to violate the invariant "
-             "(stale groups after a move), replayed on the real path manager and fixed in /repo. Tied to the code by real "
-             "pathManager histories compared inside Coq.",
+             "(stale groups after a move), replayed on the real path manager and fixed in /repo. Second layer "
+             "(Model/C15_Delivery.v): the hand-over of a reloaded configuration to a live path is a step of its own (the "
+             "manager enqueues, the path goroutine receives later); for hand-overs received in order the invariant - "
+             "manager's side reconciled, and for every live path the pending hand-overs lead to exactly what the manager "
+             "recorded, so a path with nothing pending runs with exactly what FindPathConf selects - is proved over ALL "
+             "histories with deliveries interleaved arbitrarily with later reloads / creations / departures, and the pending "
+             "hand-overs can always be drained; for unordered hand-overs (code as found) and for the unguarded idle close "
+             "(code as found) _refuted theorems with two- / three-step witnesses, both replayed on the real pathManager "
+             "(189/200 and 44/100 trials) and fixed in /repo (f21f96e, 34080dc). Tied to the code by real pathManager "
+             "histories, forced races included, compared inside Coq.",
         note="Trusted: Coq kernel+VM, the go/ast translator (cross-checked against reflect and real calls), the driver, the "
-             "regexp oracle. Reload deliveries are assumed to land before the next reload; effects inside the path "
-             "(recorder, forwarder, camera) of a hot reload are not modelled.",
-        technique="translator (Go -> Gallina field lists) + Coq proof (invariant preserved by every step, lifted to histories) "
-                  "+ vm_compute table checks + real-pathManager correspondence")
+             "regexp oracle. That hand-overs to one path are received in issue order is a property of path.reloadConfAsync "
+             "(a chain of goroutines, each waiting for the previous one) that is argued from the Go memory model / channel "
+             "semantics, not proved; it is exercised by the forced races of every run (reverting it, or dropping the wait, "
+             "is caught with a concrete replay). Effects inside the path (recorder, forwarder, camera) of a hot reload are "
+             "not modelled.",
+        technique="translator (Go -> Gallina field lists) + Coq proof (invariant preserved by every step, lifted to histories; "
+                  "second layer by projection onto the first + a per-path settle invariant) "
+                  "+ vm_compute table checks + real-pathManager correspondence with forced schedules")
 
     def generate(self, ctx):
         out = os.path.join(vlib.COQ, "gen", "C15_HotFields.v")
